@@ -30,6 +30,9 @@ func (u *UseCase) GetKeys(ctx context.Context) ([]string, error) {
 		filter.BeforeSeq = ptr.Ptr(tx.Seq)
 	}
 
+	model.ContentGuard.RLock()
+	defer model.ContentGuard.RUnlock()
+
 	files, err := u.fRepo.GetFiles(ctx, tx.Id, filter)
 	if err != nil {
 		return nil, fmt.Errorf("file repository get files: %w", err)
